@@ -69,18 +69,39 @@ def path_of(url):
     return url.split("://", 1)[1] if "://" in url else url
 
 
-def histories(tier):
+def histories(tier, alphabet="wf"):
     out = []
     for p in range(0, 5):
-        for prefix in itertools.product("wf", repeat=p):
+        for prefix in itertools.product(alphabet, repeat=p):
             for term in (("close",), ("exit",), ("close", "close"), ("exit", "close")):
                 if p + len(term) <= 5:
                     out.append(list(prefix) + list(term))
     return out
 
 
+# writers for which a record exists whose write() raises without the writer being at fault
+POISONABLE = {"stream": "surrogate", "stream.gz": "surrogate", "jsonfile": "bigint", "sqlite": "int65"}
+
+
 def history_cases(tier):
-    return [{"writer": w, "hist": h} for w in WRITERS for h in histories(tier)]
+    cases = [{"writer": w, "hist": h} for w in WRITERS for h in histories(tier)]
+    # histories in which some write() raises and the caller carries on ('p'): nothing accepted may be lost
+    for w in POISONABLE:
+        for h in histories(tier, "wfp"):
+            if "p" in h:
+                cases.append({"writer": w, "hist": h})
+    return cases
+
+
+def poison_record(kind):
+    from flow.record import RecordDescriptor
+
+    how = POISONABLE[kind]
+    if how == "surrogate":
+        return the_desc()("\ud800", 0, _generated=GEN)
+    if how == "bigint":
+        return the_desc()("big", 10**5000, _generated=GEN)
+    return the_desc()("wide", 2**70, _generated=GEN)
 
 
 def read_back(kind, url):
@@ -177,6 +198,13 @@ def check_history(case, ctx):
                 written.append(r)
                 k += 1
                 flushed_last = False
+            elif op == "p":
+                pres = impl(w.write, poison_record(kind))
+                if pres.ok:
+                    raise RuntimeError("harness: poison record accepted by %s" % kind)
+                ctx.cls("write-raised-and-caller-continued")
+                flushed_last = False
+                continue
             elif op == "f":
                 res = impl(w.flush)
                 flushed_last = True
